@@ -1,6 +1,7 @@
 package main
 
 import (
+	"bytes"
 	"context"
 	"fmt"
 	"math/rand"
@@ -13,6 +14,7 @@ import (
 
 	"github.com/anishathalye/porcupine"
 	"github.com/bool64/cache"
+	"github.com/cespare/xxhash/v2"
 )
 
 // C08: per-key linearizability of the backends under concurrent use (porcupine over recorded histories).
@@ -36,13 +38,13 @@ type linOut struct {
 }
 
 type linEv struct {
-	Client  int     `json:"c"`
-	Key     int     `json:"k"` // -1: batch op
-	In      linIn   `json:"in"`
-	Out     linOut  `json:"out"`
-	Call    int64   `json:"call"`
-	Ret     int64   `json:"ret"`
-	Seen    []wSeen `json:"seen,omitempty"`
+	Client int     `json:"c"`
+	Key    int     `json:"k"` // -1: batch op
+	In     linIn   `json:"in"`
+	Out    linOut  `json:"out"`
+	Call   int64   `json:"call"`
+	Ret    int64   `json:"ret"`
+	Seen   []wSeen `json:"seen,omitempty"`
 }
 
 type wSeen struct {
@@ -114,9 +116,9 @@ type linJanitor struct {
 	calls   int64 // number of janitor call-outs so far (atomic)
 	cleanup bool
 	clock   *int64
-	mu    sync.Mutex
-	last  int64
-	evs   []linEv
+	mu      sync.Mutex
+	last    int64
+	evs     []linEv
 }
 
 func (j *linJanitor) mark() int64 {
@@ -169,11 +171,29 @@ func init() {
 			"with and without LRU/LFU, a third of the histories with the real janitor at 1ms and a count limit (evictions recorded at its cache_evict call-out); call/return stamped from one atomic logical clock at the client boundary with seeded delays; " +
 			"porcupine NondeterministicModel per key (batch ops, evictions and partner writes inserted into every affected key's partition) + walk monitor (reported tokens were written under the key; keys stable during the walk reported exactly once); " +
 			"distinct_nontrivial = distinct histories (hash of the per-key outcome patterns) containing at least one pair of real-time-concurrent conflicting operations on one key",
-		Required:    []string{"histories", "partitions.ok", "histories.concurrent_conflict", "ops.read", "ops.write", "ops.delete", "ops.expireall", "ops.deleteall", "ops.walk", "walk.stable_keys.checked", "bulkwalk.cases", "evictions.recorded", "cleanup_cycles.recorded", "kind.ShardedMap", "kind.SyncMap", "kind.ShardedMapOf", "writes.equal_values_on_colliding_pair"},
+		Required:    []string{"histories", "partitions.ok", "histories.concurrent_conflict", "ops.read", "ops.write", "ops.delete", "ops.expireall", "ops.deleteall", "ops.walk", "walk.stable_keys.checked", "bulkwalk.cases", "evictions.recorded", "cleanup_cycles.recorded", "kind.ShardedMap", "kind.SyncMap", "kind.ShardedMapOf", "writes.equal_values_on_colliding_pair", "histories.cleanup_with_crowded_shard"},
 		Assumptions: []string{"a batch operation is modelled as acting on each key at one instant within its call; an eviction cycle as {unchanged, removed} within [previous janitor call-out, cache_evict call-out]", "checker timeout (30s per key partition) = inconclusive"},
 		Timeout:     func(string) time.Duration { return 45 * time.Minute },
 		ChildEnv:    []string{"GOMAXPROCS=8"},
 	})
+}
+
+var c08BallastKeys = map[uint64][][]byte{}
+
+// c08Ballast returns (and memoises) 800 filler keys that live in the given shard.
+func c08Ballast(shard uint64) [][]byte {
+	if ks, ok := c08BallastKeys[shard]; ok {
+		return ks
+	}
+	var ks [][]byte
+	for i := 0; len(ks) < 800; i++ {
+		k := []byte(fmt.Sprintf("ballast-%d", i))
+		if xxhash.Sum64(k)%128 == shard {
+			ks = append(ks, k)
+		}
+	}
+	c08BallastKeys[shard] = ks
+	return ks
 }
 
 func runC08(b *Batch) {
@@ -252,6 +272,14 @@ func c08Case(b *Batch, idx int) {
 		cfg.EvictionNeeded = jan.evictionNeeded
 	}
 	be := newBackend(kind, cfg)
+	if cleanup && kind != "SyncMap" && rng.Intn(2) == 0 {
+		// recently expired fillers in the shard of key 0 make every scan of that shard long (they are never deletable
+		// themselves): whatever the cleanup pass does between looking at an entry and removing it has time to go wrong
+		for _, k := range c08Ballast(xxhash.Sum64(keys[0]) % 128) {
+			_ = be.Write(cache.WithTTL(bg, -time.Second, false), k, "ballast")
+		}
+		b.R.Count("histories.cleanup_with_crowded_shard", 1)
+	}
 	logs := make([][]linEv, clients)
 	seeds := make([]int64, clients)
 	for c := range seeds {
@@ -325,6 +353,9 @@ func c08Case(b *Batch, idx int) {
 					ev.Key, ev.In = -1, linIn{Kind: "walk"}
 					seen := map[string]*wSeen{}
 					be.Walk(func(k []byte, v interface{}, exp time.Time) error {
+						if bytes.HasPrefix(k, []byte("ballast-")) {
+							return nil // filler entries of the cleanup variant, not part of the history
+						}
 						kk := -1
 						for i2, kb := range keys {
 							if string(kb) == string(k) {
